@@ -232,7 +232,7 @@ class Clause:
 
 class LoopSpec:
     def __init__(self, k):
-        self.k = k; self.invariants = []; self.on_exit = []; self.summaries = []; self.decreases = None; self.assigns = None; self.ghost_updates = []; self.uses = []
+        self.k = k; self.invariants = []; self.on_exit = []; self.summaries = []; self.uses_end = []; self.uses_base = []; self.decreases = None; self.assigns = None; self.ghost_updates = []; self.uses = []
 
 
 class FuncSpec:
@@ -480,6 +480,16 @@ class SpecDB:
                     m = re.match(r'^(\w+)\s*>=\s*(.*)$', rest)
                     if not m: raise SpecError('induction VAR >= LOWER expected')
                     ctx.options['induction'] = (m.group(1), self.expand(parse_expr(m.group(2))))
+                elif head == 'use_base_forall':
+                    # lemma instances assumed right before the loop is entered (where its invariants are first checked)
+                    if loop is None: raise SpecError('use_base_forall outside loop')
+                    m = re.match(r'^(\w+)\s+in\s+(.*?)\s*\.\.\s*(.*?)\s*:\s*(.*)$', rest)
+                    if not m: raise SpecError('use_base_forall VAR in LO .. HI : LEMMA(args) expected')
+                    c = self.expand(parse_expr(m.group(4)))
+                    if c.k != 'call': raise SpecError('use_base_forall ... : LEMMA(args) expected')
+                    c.when = None
+                    c.forall = (m.group(1), self.expand(parse_expr(m.group(2))), self.expand(parse_expr(m.group(3))))
+                    loop.uses_base.append(c)
                 elif head in ('use_forall', 'use_post_forall'):
                     # use_forall VAR LO HI : LEMMA(args)
                     m = re.match(r'^(\w+)\s+in\s+(.*?)\s*\.\.\s*(.*?)\s*:\s*(.*)$', rest)
@@ -501,6 +511,17 @@ class SpecDB:
                     if c.k != 'call': raise SpecError('use_after LOCAL : LEMMA(args) expected')
                     c.when = cond
                     ctx.uses_after.setdefault(vn.strip(), []).append(c)
+                elif head == 'use_end':
+                    # use_end LEMMA(args) [when cond] : applied at the end of the loop body (before the step), where the body's locals are live
+                    if loop is None: raise SpecError('use_end outside loop')
+                    cond = None; r2 = rest
+                    if ' when ' in r2:
+                        r2, _, ctext = r2.partition(' when ')
+                        cond = self.expand(parse_expr(ctext))
+                    c = self.expand(parse_expr(r2.strip()))
+                    if c.k != 'call': raise SpecError('use_end LEMMA(args) expected')
+                    c.when = cond; c.forall = None
+                    loop.uses_end.append(c)
                 elif head in ('use', 'use_post'):
                     cond = None
                     if ' when ' in rest:
